@@ -74,7 +74,7 @@ def uncovered_changes(repo, changed_files, commit):
                 txt = cl[n - 1].split("//")[0].strip() if 0 < n <= len(cl) else ""
                 if tag == "delete":
                     if removed_code: out.append("%s:%d (code removed in front of this line)" % (f, n))
-                elif txt and not txt.startswith("#[") and not txt.startswith("use ") and not txt.startswith("extern crate"):
+                elif txt and not (txt.startswith("#[") and not txt.startswith("#[cfg")) and not txt.startswith("use ") and not txt.startswith("extern crate"):
                     out.append("%s:%d %s" % (f, n, txt[:80]))
     return out
 def baseline_fn_texts(repo):
